@@ -96,13 +96,17 @@ Proof.
 Qed.
 Print Assumptions C17_hex_perm_inverse.
 
-(* npz key scheme: for all tag names, the keys written by save_npz are read back by load_npz as exactly the
-   boundary names and exactly the subdomain names (the fixed keys doflocs / t are not mistaken for tags) *)
+(* npz key scheme: for all tag names and every subset `on` of boundaries that carry orientation flags, the keys
+   written by save_npz are read back by load_npz as exactly the boundary names and exactly the subdomain names (the
+   fixed keys doflocs / t and the flag arrays are not mistaken for tags), and a boundary finds its flag array iff it
+   was written *)
 Theorem C17_npz_keys_roundtrip :
-  forall (bn sn : list String.string),
+  forall (bn sn on : list String.string),
     let keys := gen_npz_fixed_keys ++ map (key_with_prefix gen_npz_save_b) bn
-                                   ++ map (key_with_prefix gen_npz_save_s) sn in
-    decode_keys gen_npz_load_b keys = bn /\ decode_keys gen_npz_load_s keys = sn.
+                                   ++ map (key_with_prefix gen_npz_save_s) sn
+                                   ++ map (key_with_prefix gen_npz_save_o) on in
+    decode_keys gen_npz_load_b keys = bn /\ decode_keys gen_npz_load_s keys = sn /\
+    forall n, In (key_with_prefix gen_npz_load_o n) keys <-> In n on.
 Proof. exact npz_keys_roundtrip. Qed.
 Print Assumptions C17_npz_keys_roundtrip.
 
